@@ -171,6 +171,11 @@ class H11Protocol:
                     await self._check_protocol(event)
                     await self._create_stream(event)
                 elif event is h11.PAUSED:
+                    if self.stream is None:
+                        # The response has already completed without
+                        # the connection being recycled, waiting would
+                        # miss the wake up that has already happened.
+                        break
                     await self.can_read.clear()
                     await self.can_read.wait()
                     if self.connection.our_state is not h11.IDLE:
